@@ -69,6 +69,14 @@ def run(model, rep, tier):
     nd = pat.canon_func(model.func("dns.node.Node.to_styled_text"), ["for __rds in self.rdatasets:"])
     t = " ".join(src(nd.node).split())
     rep.check("for rds in self.rdatasets:" in t and "rds.to_styled_text" in t, "R-09.1", nd.qualname, where(nd, nd.node), "every rdataset of the node is written", "node writer skips rdatasets", stmt="all-rdatasets")
+    # the "owner already printed" flag flips only after something was printed for this node
+    ncfg = CFG(nd.node, implicit_exc=False)
+    flips = [n for n in ncfg.nodes if isinstance(n.ast, ast.Assign) and "first_name_is_duplicate=True" in src(n.ast)]
+    writes = [n for (n, c) in calls_with_nodes(ncfg) if isinstance(c.func, ast.Attribute) and c.func.attr == "write" and any("to_styled_text" in src(a) for a in c.args)]
+    okk = len(flips) == 1 and len(writes) == 1 and ncfg.dominated_by_set(flips[0].id, [writes[0].id])
+    rep.check(okk, "R-09.1", nd.qualname, where(nd, flips[0].ast if flips else nd.node), "first_name_is_duplicate is set only after an rdataset of this node was written",
+              "first_name_is_duplicate can be set although nothing was written for the node yet (an empty first rdataset): with deduplicate_names all its records get a blank owner and re-attach to the previous node on re-read",
+              stmt="dedup-after-print")
     t = " ".join(src(rs.node).split())
     rep.check("for rd in self:" in t and "s.write(f'{ntext}{ttl}{rdclass_text}{rdtype_text} {rdata_text}{extra}\\n')" in t, "R-09.1", rs.qualname, where(rs, rs.node),
               "every record is written with owner, ttl, class, type and rdata columns", "record line composition changed", stmt="record-line")
@@ -77,6 +85,7 @@ def run(model, rep, tier):
 
     # ---------------------------------------------------------------- R-09.2
     n_add = 0
+    n_rel = 0
     OWNER = ["self.txn.add(__name, ...)"]
     for q in ("dns.zonefile.Reader._rr_line", "dns.zonefile.Reader._generate_line"):
         f = pat.canon_func(model.func(q), OWNER)
@@ -104,7 +113,16 @@ def run(model, rep, tier):
             # nothing touches the transaction before the gate in this function
             before = [m for (m, c2) in calls_with_nodes(cfg) if "self.txn." in src(c2.func) and g.id in cfg.reachable([m.id]) and m.id not in cfg.reachable([y for (y, k) in cfg.succ[g.id]])]
             rep.check(not before, "R-09.2", q, where(f, g.ast), "no transaction call precedes the in-zone test", "the transaction is touched before the in-zone test", stmt="no-effect-before-gate")
+        # the owner is made relative to the same origin the in-zone test used (the zone origin, not the current $ORIGIN)
+        rel = [c for c in ast.walk(f.node) if isinstance(c, ast.Call) and isinstance(c.func, ast.Attribute) and c.func.attr == "relativize" and src(c.func.value) == "name"]
+        gate_origins = {src(x.args[0]) for g in guards for x in ast.walk(g.ast.test) if isinstance(x, ast.Call) and isinstance(x.func, ast.Attribute) and x.func.attr == "is_subdomain" and x.args}
+        for c in rel:
+            rep.check(len(gate_origins) == 1 and c.args and src(c.args[0]) in gate_origins, "R-09.2", q, where(f, c), f"the owner is relativized against {sorted(gate_origins)}, the origin of the in-zone test",
+                      f"the owner is relativized against `{src(c.args[0]) if c.args else ''}` but tested against {sorted(gate_origins)}: after a $ORIGIN below the zone origin the record is stored under another name "
+                      "than its expansion / absolute spelling", stmt="owner-relativize-origin")
+        n_rel += len(rel)
     rep.floor("R-09.2", n_add, 2)
+    rep.floor("R-09.2-relativize", n_rel, 2)
     # an explicit owner is remembered BEFORE the in-zone test, so continuation lines of an out-of-zone owner are dropped too
     f = pat.canon_func(model.func("dns.zonefile.Reader._rr_line"), OWNER)
     cfg = CFG(f.node, implicit_exc=False)
@@ -155,6 +173,10 @@ def run(model, rep, tier):
 
 
 WITNESSES = [
+    {"id": "c09-generate-relativizes-to-current-origin", "rule": "R-09.2", "file": "dns/zonefile.py", "expect": "fires",
+     "old": "                self._eat_line()\n                return\n            if self.relativize:\n                name = name.relativize(self.zone_origin)\n\n            try:", "new": "                self._eat_line()\n                return\n            if self.relativize:\n                name = name.relativize(self.current_origin)\n\n            try:"},
+    {"id": "c09-dedup-flag-without-print", "rule": "R-09.1", "file": "dns/node.py", "expect": "fires",
+     "old": "                if style.deduplicate_names and not style.first_name_is_duplicate:\n                    style = style.replace(first_name_is_duplicate=True)", "new": "            if style.deduplicate_names and not style.first_name_is_duplicate:\n                style = style.replace(first_name_is_duplicate=True)"},
     {"id": "c09-generic-without-origin", "rule": "R-09.1", "file": "dns/rdataset.py", "expect": "fires",
      "old": "rd.to_generic(style.origin).to_styled_text(style)", "new": "rd.to_generic().to_styled_text(style)"},
     {"id": "c09-no-in-zone-test", "rule": "R-09.2", "file": "dns/zonefile.py", "expect": "fires",
